@@ -10,6 +10,7 @@ import (
 	"io"
 	"log"
 	"net/http"
+	"sort"
 	"strings"
 	"testing/iotest"
 	"time"
@@ -64,7 +65,7 @@ func run(r *mon.Run) {
 	ids := []*gen.Identity{gen.NewIdentity(g0, gen.Curves[0], "example.com", 1), gen.NewIdentity(g0, gen.Curves[1], "example.com", 2)}
 	n := 2000
 	if r.Thorough {
-		n = 40000
+		n = 120000
 	}
 	rsList := []int{1, 2, 16, 17, 100, 4095, 4096, 16383, 16384}
 	sharedSigners := map[*gen.Identity]*signedexchange.Signer{}
@@ -107,7 +108,7 @@ func run(r *mon.Run) {
 		spec.URL = "https://example.com/" + strings.Repeat("p", g.Intn(40)) + mon.Pick(g, []string{"", "?q=1", "/a%20b", "/%E3%81%82", "/caf\u00e9/", "/a|b", "/a b", "/x#", "/%7euser/%2f", "/a/../b/./c", "?", "/\u65e5\u672c?q=\u00e9"})
 		h := http.Header{"Content-Type": {mon.Pick(g, []string{"text/html", "application/octet-stream", "text/plain; charset=utf-8"})}}
 		for j := 0; j < g.Intn(6); j++ {
-			name := mon.Pick(g, []string{"x-lower", "X-Upper", "X-MiXeD-CaSe", "x_under", "Link", "ETag", "vary", "X-Numb3r"}) + fmt.Sprint(j)
+			name := mon.Pick(g, []string{"x-lower", "X-Upper", "X-MiXeD-CaSe", "x_under", "Link", "ETag", "vary", "X-Numb3r", "X_Under_Upper", "X^Caret", "x!#$%&'*+.^_`|~", "X`Tick|Bar~Tilde"}) + fmt.Sprint(j)
 			h[name] = []string{fmt.Sprintf("v%d", j)}
 			if g.Chance(1, 3) {
 				h[name] = append(h[name], "second", "")
@@ -311,6 +312,82 @@ func run(r *mon.Run) {
 		r.Distinct(fmt.Sprintf("%s|c%d|rs%d|%s|%s|%s|%d", ver, id.Key.Curve.Params().BitSize, rsClass(rs), res, shape, spec.Method, spec.Status))
 		if i%173 == 0 {
 			r.Sample("roundtrip", map[string]any{"case": i, "exchange": desc, "file_bytes": buf.Len(), "verifies": before[0].ok})
+		}
+	}
+
+	// ---- header sets the library may refuse (valid field names that are equal after case folding): IF it agrees to sign
+	// and write them, every value must be there after the round trip. (Names that are not HTTP tokens - ":url", the empty
+	// name - are outside the property's header sets and are not tried.)
+	if r.Shard == 0 {
+		type oddSet struct {
+			name string
+			h    http.Header
+		}
+		odds := []oddSet{
+			{"case-colliding-names", http.Header{"Content-Type": {"text/html"}, "X-Variant": {"alpha"}, "x-variant": {"beta"}}},
+			{"case-colliding-three", http.Header{"Content-Type": {"text/html"}, "Link": {"one"}, "link": {"two"}, "LINK": {"three"}}},
+			{"colliding-content-type", http.Header{"Content-Type": {"text/html"}, "content-type": {"text/plain"}}},
+		}
+		for vi, ver := range gen.SXGVersions {
+			for oi, o := range odds {
+				for _, where := range []string{"response", "request"} {
+					if where == "request" && ver == version.Version1b3 {
+						continue
+					}
+					g := r.Rand("odd-headers", vi*100+oi)
+					spec := gen.DefaultSXG(g, ver, ids[0], "example.com", 10, 16)
+					if where == "response" {
+						spec.RespHeaders = o.h
+					} else {
+						spec.ReqHeaders = o.h
+					}
+					var e *signedexchange.Exchange
+					var err error
+					p, _ := r.Call(fmt.Sprintf("odd/%s/%s/%s", ver, o.name, where), nil, func() { e, _, err = spec.Build() })
+					var buf bytes.Buffer
+					if !p && err == nil {
+						p, _ = r.Call(fmt.Sprintf("odd-write/%s/%s/%s", ver, o.name, where), nil, func() { err = e.Write(&buf) })
+					}
+					outcome := "odd-headers:refused"
+					if !p && err == nil {
+						outcome = "odd-headers:roundtrip-ok"
+						back, rerr := signedexchange.ReadExchange(bytes.NewReader(buf.Bytes()))
+						problem := ""
+						if rerr != nil {
+							problem = "unreadable: " + rerr.Error()
+						} else {
+							got := back.ResponseHeaders
+							if where == "request" {
+								got = back.RequestHeaders
+							}
+							want := map[string][]string{}
+							for k, vs := range o.h {
+								want[strings.ToLower(k)] = append(want[strings.ToLower(k)], vs...)
+							}
+							have := map[string][]string{}
+							for k, vs := range got {
+								for _, v := range vs {
+									have[strings.ToLower(k)] = append(have[strings.ToLower(k)], strings.Split(v, ",")...)
+								}
+							}
+							for k, vs := range want {
+								a, b := append([]string{}, vs...), append([]string{}, have[k]...)
+								sort.Strings(a)
+								sort.Strings(b)
+								if strings.Join(a, "\x00") != strings.Join(b, "\x00") {
+									problem = fmt.Sprintf("%s header %q: signed and written with the values %q, read back with %q", where, k, a, b)
+								}
+							}
+						}
+						if problem != "" {
+							outcome = "odd-headers:ACCEPTED-BUT-ALTERED"
+							r.Violation(fmt.Sprintf("sx2:odd:%s:%s:%s", ver, o.name, where), fmt.Sprintf("the library agreed to sign and write a %s exchange with the %s header set %s, but it does not read back the same: %s", ver, where, o.name, problem), nil)
+						}
+					}
+					r.Eval(outcome)
+					r.Distinct(fmt.Sprintf("odd-headers|%s|%s|%s|%s", ver, o.name, where, outcome))
+				}
+			}
 		}
 	}
 
